@@ -2,7 +2,10 @@
 
 package gbn
 
-import "time"
+import (
+	"context"
+	"time"
+)
 
 func vKeepalive(idx int) (ping, pong time.Duration) {
 	switch idx {
@@ -90,5 +93,58 @@ func VH_C13_Idle() {
 	vAssert(p.cli.Send([]byte{1}) == nil, "Send failed after idling")
 	m, err := p.srv.Recv()
 	vAssert(err == nil && len(m) == 1 && m[0] == 1, "message not delivered after idling")
+	p.shutdown()
+}
+
+// VH_C13_IdleJitter: a live idle peer whose answers take a different time in
+// every keep-alive cycle - almost nothing, a third of the pong timeout, or just
+// under the pong timeout (symbolic choice per cycle for the first `cycles`
+// cycles) - is never closed. Only the client pings (the server's keep-alive is
+// off, so nothing but the answers to the client's pings shows liveness); the
+// resend timeout is far above the latencies.
+func VH_C13_IdleJitter() {
+	ping, pong := vKeepalive(vIntRange("keepalive", 0, vParam("maxka", 3)))
+	p := &vPair{c2s: newLink("c2s", 0), s2c: newLink("s2c", 0)}
+	p.ctx, p.cancel = context.WithCancel(context.Background())
+	done := make(chan struct{}, 2)
+	go func() {
+		p.srv, p.srvErr = NewServerConn(p.ctx, p.s2c.send, p.c2s.recv, WithTimeoutOptions(WithStaticResendTimeout(30*time.Second)))
+		done <- struct{}{}
+	}()
+	go func() {
+		p.cli, p.cliErr = NewClientConn(p.ctx, 2, p.c2s.send, p.s2c.recv, WithTimeoutOptions(WithStaticResendTimeout(30*time.Second), WithKeepalivePing(ping, pong)))
+		done <- struct{}{}
+	}()
+	<-done
+	<-done
+	vAssert(p.cliErr == nil && p.srvErr == nil, "clean handshake failed")
+	if p.cliErr != nil || p.srvErr != nil {
+		return
+	}
+	cycles := vParam("cycles", 3)
+	lats := make([]time.Duration, cycles)
+	for i := range lats {
+		switch vIntRange("latency", 0, 2) {
+		case 0:
+			lats[i] = pong / 50
+		case 1:
+			lats[i] = pong/3 + pong/150
+		case 2:
+			lats[i] = pong - pong/300
+		}
+	}
+	p.s2c.latFn = func(i int) time.Duration {
+		if i < len(lats) {
+			return lats[i]
+		}
+		return pong / 50
+	}
+	select {
+	case <-p.cli.quit:
+		vAssert(false, "keep-alive closed an idle connection whose peer answered every ping within the pong timeout")
+	case <-time.After(time.Duration(cycles+3) * (ping + pong)):
+		vReach("jitter-ok")
+	}
+	vAssert(p.cli.Send([]byte{1}) == nil, "Send failed after idling")
 	p.shutdown()
 }
